@@ -1022,6 +1022,86 @@ def rule_r13(ctx) -> List[R.Inst]:
     return insts
 
 
+def rule_r14(ctx) -> List[R.Inst]:
+    """conformance of the model's own summary: `Model._merge_props` expands the class decorators of Property.py as "the props of
+    the class, then those of every ancestor in a depth-first, left-to-right walk of __bases__, a later one overriding" — every rule
+    about declared fields rests on it.  This rule reads the walk in the decorators' code: a recursive closure (`for b in
+    c.__bases__: [take b's props]; walk(b)`) or an explicit stack (`pending = list(reversed(c.__bases__)); while pending: b =
+    pending.pop(); [take]; pending.extend(reversed(b.__bases__))`).  An early exit, a conditional descent, or pushes that are not
+    reversed make the walk drop ancestors (an empty list then lacks declared columns: KeyError on the stacker) or visit siblings
+    right-to-left (column order and override winner change)."""
+    M = ctx.M
+    rid = "C16.R14"
+    mod = M.mods["reamber.base.Property"]
+    file = mod.rel
+    insts: List[R.Inst] = []
+    walkers = []       # (owner name, FunctionDef or block owner, kind)
+    for fn in ast.walk(mod.tree):
+        if not isinstance(fn, ast.FunctionDef):
+            continue
+        loops = [n for n in walk_no_nested(fn) if isinstance(n, (ast.For, ast.While))]
+        for lp in loops:
+            txt = unparse(lp)
+            if "__bases__" in txt and "hasattr(" in txt and "append(" in txt:
+                walkers.append((fn, lp))
+    if not walkers:
+        return [R.undec(rid, "ancestor-walk", file, 0, "no walk over __bases__ that gathers props was found in Property.py")]
+    for fn, lp in walkers:
+        key = f"ancestor-walk:{fn.name}@{lp.lineno}"
+        probs = []
+        exits = [x for x in ast.walk(lp) if isinstance(x, (ast.Break, ast.Return)) or (isinstance(x, ast.Continue))]
+        if exits:
+            probs.append(f"the walk leaves its loop early ('{type(exits[0]).__name__.lower()}' at line {exits[0].lineno}): the remaining ancestors are not visited")
+        if isinstance(lp, ast.For):
+            # recursive form
+            it = unparse(lp.iter)
+            if not it.endswith(".__bases__"):
+                probs.append(f"the bases are visited as '{it}', not left to right as declared")
+            rec = [x for x in lp.body if isinstance(x, ast.Expr) and isinstance(x.value, ast.Call) and isinstance(x.value.func, ast.Name) and
+                   x.value.func.id == fn.name and len(x.value.args) == 1 and isinstance(lp.target, ast.Name) and unparse(x.value.args[0]) == lp.target.id]
+            if not rec:
+                nested_rec = [x for x in ast.walk(lp) if isinstance(x, ast.Call) and isinstance(x.func, ast.Name) and x.func.id == fn.name]
+                probs.append("the descent into a base is conditional (under a test): ancestors above a base without props of its own are skipped"
+                             if nested_rec else "the walk does not descend into the bases of a base")
+            takes = [i for i, x in enumerate(lp.body) if "append(" in unparse(x)]
+            if rec and takes and lp.body.index(rec[0]) < takes[0]:
+                probs.append("a base's ancestors are gathered before the base itself (post-order): the override winner changes")
+        else:
+            # explicit stack
+            test = unparse(lp.test)
+            pops = [x for x in ast.walk(lp) if isinstance(x, ast.Call) and call_name(x) == "pop" and isinstance(x.func.value, ast.Name) and x.func.value.id == test]
+            exts = [x for x in ast.walk(lp) if isinstance(x, ast.Call) and call_name(x) in ("extend",) and isinstance(x.func.value, ast.Name) and x.func.value.id == test]
+            inits = [x.value for x in walk_no_nested(fn) if isinstance(x, ast.Assign) and len(x.targets) == 1 and isinstance(x.targets[0], ast.Name) and x.targets[0].id == test]
+            if len(pops) != 1 or len(exts) != 1 or len(inits) != 1:
+                insts.append(R.undec(rid, key, file, lp.lineno, "explicit-stack walk not of the form pop / take / extend"))
+                continue
+            pop_end = not pops[0].args or unparse(pops[0].args[0]) == "-1"
+
+            def rev(e):
+                while isinstance(e, ast.Call) and call_name(e) in ("list", "tuple") and len(e.args) == 1:
+                    e = e.args[0]
+                return (isinstance(e, ast.Call) and call_name(e) == "reversed") or \
+                    (isinstance(e, ast.Subscript) and unparse(e.slice) == "::-1")
+            r_init, r_ext = rev(inits[0]), rev(exts[0].args[0]) if exts[0].args else False
+            if not pop_end:
+                probs.append("the stack is popped from the front: the walk is breadth-first, the summary (and the recursive original) is depth-first")
+            else:
+                if not r_init:
+                    probs.append("the direct bases are pushed un-reversed and popped from the end: they are visited right to left")
+                if not r_ext:
+                    probs.append("a base's bases are pushed un-reversed and popped from the end: siblings are visited right to left")
+            if not any(x is exts[0] for st_ in lp.body for x in ([st_.value] if isinstance(st_, ast.Expr) else [])):
+                probs.append("the descent into a base is conditional: ancestors above a base without props of its own are skipped")
+        if probs:
+            insts.append(R.viol(rid, key, file, lp.lineno, "; ".join(probs), construct=f"{fn.name}: " + "; ".join(probs)[:200]))
+        else:
+            insts.append(R.ok(rid, key, file, lp.lineno, idiom="complete depth-first, left-to-right walk of __bases__ (what Model._merge_props assumes)"))
+    # whoever uses a generated accessor, a list's default frame or the stacker's names depends on the merged props
+    for i_ in insts:
+        i_.reach = tuple(f"reamber.base.Property.{d}" for d in ("item_props", "list_props", "map_props", "stack_props"))
+    return insts
+
+
 def rule_r12(ctx) -> List[R.Inst]:
     """re-definitions below the classes the list rules decide (sa/props/overrides.py): the `df` field is a plain field on
     every list class, and a method of a reamber.base list class re-defined in a subclass either forwards to it or is itself
@@ -1039,6 +1119,7 @@ SPECS = [
     RuleSpec("C16.R6", rule_r6, 14, "A7", "filter comparator truth tables for every flag combination"),
     RuleSpec("C16.R7", rule_r7, 28, "A2", "item constructor kwargs = declared fields"),
     RuleSpec("C16.R8", rule_r8, 37, "A2", "default / empty / from_dict frames = declared fields"),
+    RuleSpec("C16.R14", rule_r14, 1, "M0", "the decorators' ancestor walk is the complete depth-first, left-to-right walk the model's expansion assumes"),
     RuleSpec("C16.R9", rule_r9, 2, "M0", "row -> item filter keeps exactly the declared fields"),
     RuleSpec("C16.R10", rule_r10, 3, "A7", "hold ends: head_offset = offset, tail_offset = offset + length"),
     RuleSpec("C16.R12", rule_r12, 9, "M0", "list operations re-defined in subclasses forward to the decided definition; `df` is a plain field"),
